@@ -12,10 +12,10 @@ import (
 
 func init() {
 	register(&propCheck{
-		id:    "C03",
-		level: "other",
+		id:          "C03",
+		level:       "other",
 		explanation: "Static necessary conditions of the unzip resource limits: each configured limit is compared at a place where the comparison can bound what it is meant to bound, on every path. All rules are evaluated on the control-flow graph pruned under 'limits apply' (the false successor of every branch on limits.Apply() — and, for depth, on GetMaxDepth() >= 0 — is removed: with NoLimits nothing is promised). (W1) the copy of an entry into the destination is preceded by the comparison of its declared size with GetMaxFileSize() whose failing side is a 'too large' error exit, and the number of bytes copied is that declared size; zip.NewReader is preceded by the archive-size comparison; (W2) in the entry loop every cyclic path that increments the file counter or the byte total also passes the comparison of that counter with GetMaxFileCount()/GetMaxTotalSize(); (W3) the totals returned by the nested extraction are added to the parent's counters, the same limits object is handed down and the depth strictly grows on the recursive cycle; unzip returns the counters' values; (W4) every entry creation in the loop is preceded by the depth comparison; (W6) every way round the loop that creates an entry — the directory of a directory entry, an extracted file — increments the file counter or adds the nested count in that iteration (conditions with identical operands, such as the two evaluations of 'is this name an archive', are taken to agree within an iteration); (W5) lying headers: the copy is bounded by the declared size, so archive/zip only gets to compare the header's size and checksum with the data if the entry's reader is read on afterwards — on every path from the successful copy to a successful return the reader is read once more and the outcome is examined. Decided on SSA; nothing is executed. Not decided: the arithmetic (off-by-one of > vs >=, uint64 wrap), what archive/zip verifies at the end of an entry (library contract), what is on disk when an error is returned.",
-		run:   runC03,
+		run:         runC03,
 		assumptions: []string{
 			"safeio.CopyNWithContext writes at most the number of bytes it is given (io.CopyN)",
 			"archive/zip reports a checksum/size mismatch between header and data as an error",
